@@ -9,6 +9,11 @@ from mutants.mutants import M  # noqa: E402
 want = {a.upper() for a in sys.argv[1:] if not a.startswith("-")}
 names = {a[2:] for a in sys.argv[1:] if a.startswith("--")}
 todo = [m for m in M if (not want or m["property"] in want) and (not names or m["name"] in names)]
+# independently written changes (seeded/<id>/patch.diff) are replayed the same way
+for d in sorted((VERIF / "seeded").glob("C*")):
+    prop = d.name.split("_")[0]
+    if (not want or prop in want) and (not names or d.name in names or "seeded/" + d.name in names):
+        todo.append({"name": "seeded/" + d.name, "property": prop, "patch": str(d / "patch.diff")})
 
 
 def one(m):
@@ -16,7 +21,11 @@ def one(m):
     try:
         for sub in ("black_it", "examples/saving_folder"):
             shutil.copytree(Path("/repo") / sub, d / sub)
-        for (f, old, new) in [(m["file"], m["old"], m["new"])] + list(m.get("extra", [])):
+        if "patch" in m:
+            r = subprocess.run(["patch", "-p1", "-s", "-d", str(d), "-i", m["patch"]], capture_output=True, text=True)
+            if r.returncode != 0:
+                return m, "STALE", (r.stdout + r.stderr)[-200:]
+        for (f, old, new) in ([] if "patch" in m else [(m["file"], m["old"], m["new"])] + list(m.get("extra", []))):
             p = d / f
             s = p.read_text()
             if old not in s:
